@@ -6,8 +6,12 @@
                own XML writer (or, r_src = true, of `emitted` itself = the round trip); per run the creation order the
                implementation used, the dump of the loaded type system (or the kind of exception) and the
                descriptor lifted from re-emitting it.
-   check_case evaluates the model; premises are the boolean premises of the theorems of Props/C12.v. *)
-From Cassis Require Import Base Descr.
+   check_case evaluates the model; premises are the boolean premises of the theorems of Props/C12.v.
+   Every load that succeeds is also replayed in the hierarchy model TS.v (DescrTS.tsys_of_content: create_type in creation
+   order, then create_feature) and the user types read back from THAT type system (name, description, supertype, own
+   features) must be the implementation's dump as well: both models describe the loaded type system. *)
+From Cassis Require Import Base TS Descr.
+From Cassis Require DescrTS.
 
 (* short constructors for the generated files *)
 Definition F := mkF.  Definition T := mkT.  Definition SF := mkSF.  Definition ST := mkST.
@@ -47,6 +51,21 @@ Definition select (pool : descr) (sel : list nat) : descr :=
 
 Definition run_descr (emitted pool : descr) (r : run) : descr :=
   select (if r_src r then emitted else pool) (r_sel r).
+(* TypeSystem(add_document_annotation_type=False) of TS.v, computed once (the cases replay only the loader's calls) *)
+Definition init_nodoc_nf : TS.tsys := Eval vm_compute in TS.init_ts_nodoc.
+Lemma init_nodoc_nf_eq : init_nodoc_nf = TS.init_ts_nodoc.
+Proof. vm_compute. reflexivity. Qed.
+(* a loaded content (as dumped from the implementation; check_run compares it with the descriptor-level model's, creation
+   order included) embedded into TS.v (DescrTS.tsys_of_content = tsys_of_content_from init_ts_nodoc) and read back:
+   evaluated once per distinct dump of a case *)
+Definition embed_eqb (o : res tsys) : bool :=
+  match o with
+  | Ok y => match DescrTS.tsys_of_content_from init_nodoc_nf (s_types y) with
+            | Ok ts => list_eqb stype_eqb (DescrTS.user_view ts) (s_types y)
+            | _ => false
+            end
+  | _ => true
+  end.
 Definition check_run (emitted pool : descr) (dumps : list (res tsys)) (emits : list descr) (r : run) : bool :=
   let d := run_descr emitted pool r in
   let m := ts_of_descr (r_order r) d in
@@ -64,7 +83,7 @@ Definition check_case (c : case) : bool :=
   match c with
   | CaseTable tbl finals => descr_eqb builtins tbl && list_eqb String.eqb final_types (sort_names finals)
   | CaseTS s emitted pool runs dumps emits =>
-    descr_eqb (descr_of_ts s) emitted && forallb (check_run emitted pool dumps emits) runs
+    descr_eqb (descr_of_ts s) emitted && forallb (check_run emitted pool dumps emits) runs && forallb embed_eqb dumps
   end.
 
 (* premises of the theorems: well-formed type system; well-formed descriptor and admissible order in every run
